@@ -3,14 +3,14 @@
 (* reachable state; the add step properties and C11 quantified over every node / target in every *)
 (* reachable state.                                                                              *)
 EXTENDS Integers, Sequences, FiniteSets, Bitwise, TLC
-CONSTANTS W, P, MaxT, KK, StaleC, RefreshKnownC, ClosestKnownFinding
+CONSTANTS W, P, MaxT, KK, StaleC, RefreshKnownC, RekeySortedC, ClosestKnownFinding
 RECURSIVE BitLen(_)
 BitLen(x) == IF x = 0 THEN 0 ELSE 1 + BitLen(x \div 2)
 MDist(a, b) == BitLen(a ^^ b)
 MXorLt(a, b, t) == (a ^^ t) < (b ^^ t)
 MPfx(id) == id \div (2 ^ (W - P))
 VARIABLE s
-INSTANCE RT WITH K <- KK, Stale <- StaleC, RefreshKnown <- RefreshKnownC, DistOp <- MDist, XorLt <- MXorLt, Pfx <- MPfx
+INSTANCE RT WITH K <- KK, Stale <- StaleC, RefreshKnown <- RefreshKnownC, RekeySorted <- RekeySortedC, DistOp <- MDist, XorLt <- MXorLt, Pfx <- MPfx
 
 \* universe: ids with several per IP, secure / insecure, clashing prefixes
 Nodes == {[id |-> 1, ip |-> "x", port |-> 1, sec |-> FALSE], [id |-> 9, ip |-> "x", port |-> 1, sec |-> TRUE],
